@@ -34,7 +34,9 @@ def get(ctx, n_quick=40, n_thorough=400, tag="main"):
                 if r.get(k) != m.get(k):
                     c.disagreements.append((pi, qi, k, r.get(k), m.get(k)))
             for k in ("deps", "generics"):
-                if sorted(map(tuple, r.get(k, []))) != sorted(map(tuple, m.get(k, []))):
+                # as SETS: the derive keeps one entry per syntactically different field type, so a type reached both directly and through
+                # a type alias is listed twice by dependencies(); nothing observable depends on the multiplicity
+                if sorted(set(map(tuple, r.get(k, [])))) != sorted(set(map(tuple, m.get(k, [])))):
                     c.disagreements.append((pi, qi, k, r.get(k), m.get(k)))
             rv = [e2e.jnorm(x) for x in r.get("values", [])]
             mv = [e2e.jnorm(x) for x in m.get("values", [])]
